@@ -8,6 +8,12 @@
 (* either continues inside the graph of the running convert() (o = origin) or starts a new  *)
 (* convert() from the current coordinate (o = kind).                                        *)
 (*                                                                                          *)
+(* Second use (hardening round): the scattering angle is an operand *object* of the          *)
+(* instrument that lives across conversions; Retarget overwrites it in place (another        *)
+(* detector angle s2) and a new walk starts from the coordinate held.  `memoS` records the   *)
+(* sine seen by the first kernel that took the angle; a correct kernel never looks at it.    *)
+(* Negative control Bug = "stale_angle": kernels reuse the remembered sine.                  *)
+(*                                                                                          *)
 (* Invariants: whatever route was taken, the value held equals the physical definition      *)
 (* (RouteAgreement), every return to a coordinate returns its value (RoundTrip), and        *)
 (* Q d = 2 pi (QdTwoPi).                                                                     *)
@@ -16,22 +22,30 @@ EXTENDS KinematicsDefs, TLC
 CONSTANTS TGrid, LGrid,   \* sets of positive integers
           SinGrid,        \* set of rationals <<n, d>> in (0, 1]
           MaxDepth,       \* maximal number of conversions in a walk
-          Bug,            \* "none" | "efactor" | "qtwopi"
-          Emit            \* TRUE: print every maximal walk (for the replay into the code)
+          Bug,            \* "none" | "efactor" | "qtwopi" | "stale_angle"
+          Emit,           \* TRUE: print every maximal walk (for the replay into the code)
+          MaxRetarget     \* how often the angle operand may be overwritten in place (0 or 1)
 
-VARIABLES t, L, s,        \* the neutron (never change)
+VARIABLES t, L,           \* time and path of the neutron (never change)
+          s,              \* sine of half the scattering angle: the current content of the angle operand
+          memoS,          \* sine seen by the first angle-taking kernel (NoSin = none yet)
+          retargets,      \* number of Retarget steps taken
           start,          \* coordinate the walk started from
           origin,         \* graph of the running convert()
           kind, val,      \* coordinate currently held and its value
           route           \* history: sequence of [o, ker, target, val]
 
-vars == <<t, L, s, start, origin, kind, val, route>>
+vars == <<t, L, s, memoS, retargets, start, origin, kind, val, route>>
+
+NoSin == <<0, 1>>
+AngleKernels == { k \in ScalarKernels : "two_theta" \in KernelSig[k].aux }
 
 Init == /\ t \in TGrid /\ L \in LGrid /\ s \in SinGrid
         /\ start \in Origins
         /\ origin = start /\ kind = start
         /\ val = Canon(start, t, L, s)
         /\ route = <<>>
+        /\ memoS = NoSin /\ retargets = 0
 
 Apply(o, target) ==
     /\ Len(route) < MaxDepth
@@ -40,13 +54,26 @@ Apply(o, target) ==
     /\ LET ker == EdgeTable[o][target] IN
        /\ KernelSig[ker].in = kind
        /\ KernelSig[ker].out = target
-       /\ val' = KEval(ker, val, L, s, Bug)
+       /\ LET sUsed == IF Bug = "stale_angle" /\ ker \in AngleKernels /\ memoS # NoSin THEN memoS ELSE s
+          IN val' = KEval(ker, val, L, sUsed, Bug)
+       /\ memoS' = IF ker \in AngleKernels /\ memoS = NoSin THEN s ELSE memoS
        /\ route' = Append(route, [o |-> o, ker |-> ker, target |-> target, val |-> val'])
     /\ kind' = target
     /\ origin' = o
-    /\ UNCHANGED <<t, L, s, start>>
+    /\ UNCHANGED <<t, L, s, start, retargets>>
 
-Next == \E o \in Origins, target \in Kinds : Apply(o, target)
+(* the angle operand is overwritten in place; what is held (a quantity that does not depend on the *)
+(* angle) starts a new walk                                                                        *)
+Retarget(s2) ==
+    /\ retargets < MaxRetarget /\ Len(route) > 0
+    /\ s2 \in SinGrid /\ s2 # s
+    /\ kind \in {"tof", "wavelength", "energy"}
+    /\ s' = s2 /\ retargets' = retargets + 1
+    /\ start' = kind /\ origin' = kind /\ route' = <<>>
+    /\ UNCHANGED <<t, L, memoS, kind, val>>
+
+Next == \/ \E o \in Origins, target \in Kinds : Apply(o, target)
+        \/ \E s2 \in SinGrid : Retarget(s2)
 
 Spec == Init /\ [][Next]_vars
 
@@ -54,6 +81,7 @@ Spec == Init /\ [][Next]_vars
 TypeOK == /\ kind \in Kinds /\ origin \in Origins
           /\ val # NotSquare /\ val[2] > 0 /\ val[1] > 0
           /\ Len(route) <= MaxDepth
+          /\ retargets \in 0..MaxRetarget /\ (memoS = NoSin \/ memoS \in SinGrid)
 
 RouteAgreement == val = Canon(kind, t, L, s)
 
